@@ -105,16 +105,31 @@ def check_cascade(P, R, tu):
         prev = dv
     if blocks[-1][2] != 1:
         R.finding(rule, fn, "rest", "the finest slot does not receive the rest of the total", blocks[-1][4])
-    # the total is made non-negative before the cascade: us = us >= 0 ? us : -us
+    # the total is made non-negative before the cascade: us = W >= 0 ? us : -us, where W is the total itself or the total plus a
+    # multiple of the leap correction (the `whole' duration; the correction is 0 for every format without %r, which is what the
+    # property speaks about -- that us >= 0 follows is RF-range's interval proof under that assumption)
     absok = False
     for x in fn.walk():
         if x.get("k") == "BinaryOperator" and x.get("op") == "=" and strip(x["c"][0]).get("k") == "DeclRefExpr" and strip(x["c"][0]).get("d") == us:
             r = strip(x["c"][1])
             if r is not None and r.get("k") == "ConditionalOperator":
                 c, a, b = strip(r["c"][0]), strip(r["c"][1]), strip(r["c"][2])
-                if c.get("k") == "BinaryOperator" and c.get("op") in (">=", ">") and strip(c["c"][0]).get("d") == us and const_of(c["c"][1]) == 0 \
+                if c.get("k") == "BinaryOperator" and c.get("op") in (">=", ">") and const_of(c["c"][1]) == 0 \
                         and a.get("d") == us and b.get("k") == "UnaryOperator" and b.get("op") == "-" and strip(b["c"][0]).get("d") == us:
-                    absok = True
+                    w = strip(c["c"][0])
+                    if w.get("d") == us:
+                        absok = True
+                    elif w.get("k") == "DeclRefExpr":
+                        # W = us + k * <correction>: one definition, linear in us with coefficient 1, the rest a call result
+                        defs = [y for y in fn.walk() if y.get("k") == "BinaryOperator" and y.get("op") == "=" and strip(y["c"][0]).get("d") == w.get("d")]
+                        defs += [y for y in fn.walk() if y.get("k") == "Var" and y.get("d") == w.get("d") and kids(y)]
+                        if len(defs) == 1:
+                            rhs = strip(defs[0]["c"][1]) if defs[0].get("k") == "BinaryOperator" else strip(kids(defs[0])[0])
+                            if rhs is not None and rhs.get("k") == "BinaryOperator" and rhs.get("op") == "+":
+                                l, rr = strip(rhs["c"][0]), strip(rhs["c"][1])
+                                if (l.get("d") == us and not any(z.get("d") == us for z in walk(rr))) or \
+                                        (rr.get("d") == us and not any(z.get("d") == us for z in walk(l))):
+                                    absok = True
     if absok:
         R.ob("RF-sign", "precalc takes the absolute value of the total before splitting it", True)
     else:
@@ -137,8 +152,12 @@ def check_ranges(P, R, tu, us, blocks):
     keys = [flagkeys[fl] for fl, _, _ in units if flagkeys.get(fl) is not None]
     if len(keys) != len(units):
         raise AnalysisBroken("%s: flag keys of precalc not resolved" % rule)
-    iv = Intervals(fn)
+    # the formats the property speaks about (%Y %m %w %d %H %M %S) are not leap-aware: the correction is 0
+    iv = Intervals(fn, call_ranges={"__strf_tot_corr": (0, 0)})
     iv.force_discriminators = keys
+    for v in fn.walk():
+        if v.get("k") == "Var" and kids(v) and strip(kids(v)[0]) is not None and strip(kids(v)[0]).get("callee") == "__strf_tot_corr":
+            iv.zero_keys = set(iv.zero_keys) | {iv.key_of({"k": "DeclRefExpr", "d": v["d"], "n": v.get("n"), "dk": "var", "t": v.get("t")})}
     iv.run()
     res = None
     for x in fn.walk():
@@ -411,7 +430,22 @@ def check_conservation(P, R, tu, blocks):
     secs_if = [node.get("i") for flag, field, dv, md, node in blocks if dv == 1][0]
     U = Poly.sym(("call", "__strf_tot_days", ("dur",))) * Poly.const(86400) + Poly.sym(("call", "__strf_tot_secs", ("dur",)))
     C = Poly.sym(("call", "__strf_tot_corr", ("dur",)))
-    B = neg_sym(U)
+    # the sign bit the routine itself computes: [total + k * correction < 0] for whichever k it uses (k = 0: the clean seconds;
+    # k = 2: the whole duration with the correction in it -- they agree for every format without %r, where the correction is 0)
+    allsyms = set()
+    for p_ in paths:
+        if isinstance(p_.ret, dict):
+            for v in p_.ret.values():
+                if hasattr(v, "symbols"):
+                    allsyms.update(v.symbols())
+    B = None
+    for k_ in (0, 2, 1):
+        cand = neg_sym(U + C * Poly.const(k_))
+        if any(sy in allsyms for sy in cand.symbols()):
+            B = cand
+            break
+    if B is None:
+        B = neg_sym(U)
     sign = Poly.const(1) - B * Poly.const(2)
     n = good = 0
     bad = None
